@@ -1,7 +1,310 @@
+//! Witness search and replay against the real xot crate (path dependency on /repo).
+//!
+//! `replay search <target> <small|large>` enumerates small inputs for the contract family `target`,
+//! runs the real code, and evaluates an executable mirror of the postcondition.  The first violating
+//! input is printed as `WITNESS <json>`.  `replay replay '<json>'` re-executes one witness and exits 1
+//! if it still violates.  The enumerators never decide a property; they only attach a concrete input to
+//! an obligation the verifier has already failed.
+use std::panic;
+use xot::output::xml::Parameters;
+use xot::output::Indentation;
+use xot::Xot;
+
+fn strings(alphabet: &[char], max_len: usize) -> Vec<String> {
+    let mut out = vec![String::new()];
+    let mut frontier = vec![String::new()];
+    for _ in 0..max_len {
+        let mut next = Vec::new();
+        for s in &frontier {
+            for c in alphabet {
+                let mut t = s.clone();
+                t.push(*c);
+                next.push(t);
+            }
+        }
+        out.extend(next.iter().cloned());
+        frontier = next;
+    }
+    out
+}
+
+const CRIT: &[char] = &['\t', '\n', '\r', ' ', '&', '<', '>', '\'', '"', ']', ';', '#', 'x', 'a', '\u{10000}'];
+
+fn json_str(s: &str) -> String {
+    let mut o = String::from("\"");
+    for c in s.chars() {
+        match c {
+            '"' => o.push_str("\\\""),
+            '\\' => o.push_str("\\\\"),
+            '\n' => o.push_str("\\n"),
+            '\r' => o.push_str("\\r"),
+            '\t' => o.push_str("\\t"),
+            c if (c as u32) < 0x20 => o.push_str(&format!("\\u{:04x}", c as u32)),
+            c => o.push(c),
+        }
+    }
+    o.push('"');
+    o
+}
+
+fn witness(target: &str, input: &str, detail: &str) -> String {
+    format!("{{\"target\":{},\"input\":{},\"detail\":{}}}", json_str(target), json_str(input), json_str(detail))
+}
+
+/// Some(detail) if the input violates the mirrored postcondition
+fn eval(target: &str, input: &str) -> Option<String> {
+    let r = panic::catch_unwind(|| eval_inner(target, input));
+    match r {
+        Ok(v) => v,
+        Err(_) => Some("panic".to_string()),
+    }
+}
+
+fn eval_inner(target: &str, input: &str) -> Option<String> {
+    match target {
+        // text node content survives to_string -> parse
+        "text_roundtrip" | "text_roundtrip_gt" => {
+            if input.is_empty() {
+                return None;
+            }
+            let mut xot = Xot::new();
+            let a = xot.add_name("a");
+            let el = xot.new_element(a);
+            let t = xot.new_text(input);
+            xot.append(el, t).unwrap();
+            let params = Parameters { unescaped_gt: target == "text_roundtrip_gt", ..Default::default() };
+            let s = xot.serialize_xml_string(params, el).unwrap();
+            let mut xot2 = Xot::new();
+            match xot2.parse(&s) {
+                Err(e) => Some(format!("serialised as {:?}, reparse failed: {:?}", s, e)),
+                Ok(root) => {
+                    let de = xot2.document_element(root).unwrap();
+                    let got = xot2.string_value(de);
+                    if got != input { Some(format!("serialised as {:?}, read back as {:?}", s, got)) } else { None }
+                }
+            }
+        }
+        "attr_roundtrip" => {
+            let mut xot = Xot::new();
+            let a = xot.add_name("a");
+            let b = xot.add_name("b");
+            let el = xot.new_element(a);
+            xot.attributes_mut(el).insert(b, input.to_string());
+            let s = xot.to_string(el).unwrap();
+            let mut xot2 = Xot::new();
+            match xot2.parse(&s) {
+                Err(e) => Some(format!("serialised as {:?}, reparse failed: {:?}", s, e)),
+                Ok(root) => {
+                    let de = xot2.document_element(root).unwrap();
+                    let b2 = xot2.add_name("b");
+                    let got = xot2.attributes(de).get(b2).cloned();
+                    if got.as_deref() != Some(input) { Some(format!("serialised as {:?}, read back as {:?}", s, got)) } else { None }
+                }
+            }
+        }
+        "cdata_roundtrip" => {
+            if input.is_empty() {
+                return None;
+            }
+            let mut xot = Xot::new();
+            let a = xot.add_name("a");
+            let el = xot.new_element(a);
+            let t = xot.new_text(input);
+            xot.append(el, t).unwrap();
+            let params = Parameters { cdata_section_elements: vec![a], ..Default::default() };
+            let s = xot.serialize_xml_string(params, el).unwrap();
+            let mut xot2 = Xot::new();
+            match xot2.parse(&s) {
+                Err(e) => Some(format!("serialised as {:?}, reparse failed: {:?}", s, e)),
+                Ok(root) => {
+                    let de = xot2.document_element(root).unwrap();
+                    let got = xot2.string_value(de);
+                    // the parser is expected to normalise line ends inside CDATA; compare with the line-end-free reading
+                    if got != input { Some(format!("serialised as {:?}, read back as {:?}", s, got)) } else { None }
+                }
+            }
+        }
+        // input: an XML document; indentation must not add whitespace inside mixed content / preserve scope
+        "pretty_scope" => {
+            let mut xot = Xot::new();
+            let root = xot.parse(input).ok()?;
+            let params = Parameters { indentation: Some(Indentation::default()), ..Default::default() };
+            let s = xot.serialize_xml_string(params, root).unwrap();
+            let mut xot2 = Xot::new();
+            let root2 = match xot2.parse(&s) {
+                Ok(r) => r,
+                Err(e) => return Some(format!("pretty output {:?} does not reparse: {:?}", s, e)),
+            };
+            // every whitespace-only text node of the reparse that has no counterpart in the source
+            let space = xot2.xml_space_name();
+            let nodes: Vec<_> = xot2.descendants(root2).collect();
+            for n in nodes {
+                if let Some(t) = xot2.text_str(n) {
+                    if t.chars().all(|c| c == ' ' || c == '\n') && !input.contains(&format!(">{}<", t)) {
+                        // added by pretty printing: where is it?
+                        let parent = xot2.parent(n).unwrap();
+                        let mut preserve = false;
+                        for anc in xot2.ancestors(parent) {
+                            if xot2.is_element(anc) {
+                                if let Some(v) = xot2.attributes(anc).get(space) {
+                                    preserve = v == "preserve";
+                                    break;
+                                }
+                            }
+                        }
+                        let mixed = xot2.children(parent).any(|c| xot2.text_str(c).map(|t| !t.trim().is_empty()).unwrap_or(false));
+                        if preserve || mixed {
+                            return Some(format!("pretty output {:?} adds whitespace inside {} content", s, if preserve { "xml:space=preserve" } else { "mixed" }));
+                        }
+                    }
+                }
+            }
+            None
+        }
+        "html_text" => {
+            if input.is_empty() {
+                return None;
+            }
+            let mut xot = Xot::new();
+            let p = xot.add_name("p");
+            let el = xot.new_element(p);
+            let t = xot.new_text(input);
+            xot.append(el, t).unwrap();
+            let s = xot.html5().to_string(el).unwrap();
+            let body = s.strip_prefix("<!DOCTYPE html><p>")?.strip_suffix("</p>")?;
+            if body.contains('<') { return Some(format!("raw '<' from text in {:?}", s)); }
+            let mut rest = body;
+            while let Some(i) = rest.find('&') {
+                let tail = &rest[i..];
+                if !(tail.starts_with("&amp;") || tail.starts_with("&lt;") || tail.starts_with("&gt;") || tail.starts_with("&nbsp;")) {
+                    return Some(format!("raw '&' from text in {:?}", s));
+                }
+                rest = &rest[i + 1..];
+            }
+            None
+        }
+        "html_attr" => {
+            let mut xot = Xot::new();
+            let p = xot.add_name("p");
+            let title = xot.add_name("title");
+            let el = xot.new_element(p);
+            xot.attributes_mut(el).insert(title, input.to_string());
+            let s = xot.html5().to_string(el).unwrap();
+            let body = s.strip_prefix("<!DOCTYPE html><p title=\"")?.strip_suffix("\"></p>")?;
+            if body.contains('"') { return Some(format!("raw '\"' in attribute value in {:?}", s)); }
+            let mut rest = body;
+            while let Some(i) = rest.find('&') {
+                let tail = &rest[i..];
+                if !(tail.starts_with("&amp;") || tail.starts_with("&lt;") || tail.starts_with("&gt;") || tail.starts_with("&nbsp;") || tail.starts_with("&quot;") || tail.starts_with("&apos;")) {
+                    return Some(format!("raw '&' in attribute value in {:?}", s));
+                }
+                rest = &rest[i + 1..];
+            }
+            None
+        }
+        // XHTML namespace must be the W3C one: an element in it is written unprefixed
+        "xhtml_ns" => {
+            let mut xot = Xot::new();
+            let root = xot.parse(input).ok()?;
+            let s = xot.html5().to_string(root).unwrap();
+            if s.contains("<h:") { Some(format!("element in the XHTML namespace written prefixed: {:?}", s)) } else { None }
+        }
+        // whitespace stripping: a text node of non-XML whitespace must survive
+        "strip_ws" => {
+            if input.is_empty() {
+                return None;
+            }
+            let mut xot = Xot::new();
+            let a = xot.add_name("a");
+            let b = xot.add_name("b");
+            let el = xot.new_element(a);
+            let c1 = xot.new_element(b);
+            let t = xot.new_text(input);
+            let c2 = xot.new_element(b);
+            xot.append(el, c1).unwrap();
+            xot.append(el, t).unwrap();
+            xot.append(el, c2).unwrap();
+            xot.remove_insignificant_whitespace(el);
+            let removed = xot.is_removed(t);
+            let xml_ws = input.chars().all(|c| c == ' ' || c == '\t' || c == '\r' || c == '\n');
+            if removed != xml_ws { Some(format!("text {:?}: removed={} but xml-whitespace-only={}", input, removed, xml_ws)) } else { None }
+        }
+        // xml:id normalisation: value -> tokens joined by one space
+        "xml_id" => {
+            if input.contains(|c| c == '<' || c == '&' || c == '"') {
+                return None;
+            }
+            // literal TAB is turned into a space by attribute-value normalisation before xml:id normalisation
+            let norm = input.replace('\t', " ");
+            let expected: Vec<&str> = norm.split(' ').filter(|t| !t.is_empty()).collect();
+            let expected = expected.join(" ");
+            if expected.is_empty() {
+                return None;
+            }
+            let doc = format!("<a xml:id=\"{}\"/>", input);
+            let mut xot = Xot::new();
+            let root = xot.parse(&doc).ok()?;
+            match xot.xml_id_node(root, &expected) {
+                Some(_) => None,
+                None => Some(format!("{:?}: xml_id_node(\"{}\") finds nothing", doc, expected)),
+            }
+        }
+        _ => Some(format!("unknown target {}", target)),
+    }
+}
+
+fn inputs(target: &str, large: bool) -> Vec<String> {
+    match target {
+        "pretty_scope" => {
+            let mut v = Vec::new();
+            let spaces = ["", " xml:space=\"preserve\"", " xml:space=\"default\""];
+            for s1 in spaces {
+                for s2 in spaces {
+                    for s3 in spaces {
+                        v.push(format!("<doc{}><a{}><b{}><c/></b></a></doc>", s1, s2, s3));
+                        v.push(format!("<doc{}><a{}>text<b{}><c/></b></a></doc>", s1, s2, s3));
+                        v.push(format!("<doc{}><a{}><b{}><c/><!--x--></b><d/></a></doc>", s1, s2, s3));
+                    }
+                }
+            }
+            v
+        }
+        "xhtml_ns" => vec!["<h:p xmlns:h=\"http://www.w3.org/1999/xhtml\"><h:br/></h:p>".to_string()],
+        "strip_ws" => strings(&[' ', '\t', '\n', '\r', '\u{a0}', '\u{2003}', 'x'], if large { 4 } else { 3 }),
+        "xml_id" => strings(&[' ', 'x', 'y', '\t'], if large { 7 } else { 5 }),
+        _ => strings(CRIT, if large { 4 } else { 3 }),
+    }
+}
+
 fn main() {
-    let mut xot = xot::Xot::new();
-    let src = std::env::args().nth(1).unwrap();
-    let root = xot.parse(&src).unwrap();
-    let s = xot.html5().to_string(root).unwrap();
-    println!("{}", s);
+    panic::set_hook(Box::new(|_| {}));
+    let args: Vec<String> = std::env::args().collect();
+    if args.len() >= 4 && args[1] == "search" {
+        let target = &args[2];
+        let large = args[3] == "large";
+        let ins = inputs(target, large);
+        let mut n = 0usize;
+        for i in &ins {
+            n += 1;
+            if let Some(d) = eval(target, i) {
+                println!("SEARCHED {}", n);
+                println!("WITNESS {}", witness(target, i, &d));
+                return;
+            }
+        }
+        println!("SEARCHED {}", n);
+        println!("NONE");
+    } else if args.len() >= 4 && args[1] == "eval" {
+        // replay eval <target> <input>
+        match eval(&args[2], &args[3]) {
+            Some(d) => {
+                println!("VIOLATES: {}", d);
+                std::process::exit(1);
+            }
+            None => println!("holds"),
+        }
+    } else {
+        eprintln!("usage: replay search <target> <small|large> | replay eval <target> <input>");
+        std::process::exit(2);
+    }
 }
